@@ -129,6 +129,7 @@ pub fn run(ctx: &Ctx) -> Report {
         p2(classic_ops(), ctx.pick(vec![vec![1], vec![0x80]], vec![vec![], vec![1], vec![0x80]])),
         p4(ctx.pick(12, 60), false),
         p5_full(),
+        p_guard_args(),
         p_vectors(ctx.pick(2, 8)),
         p_paths(40),
     ];
